@@ -1,8 +1,13 @@
 """plsim engine: dispatch per property. Worlds are single-threaded and leave
 nothing behind, so they run inside the worker process itself."""
 import importlib
+import signal
+import time
 import traceback
 
+from simkit.util import digest
+
+from . import world as _world
 from .world import ScenarioInvalid
 
 _MODULES = {"C09": "c09", "C15": "c15", "C16": "c16", "C06": "c06", "C07": "c07", "C08": "c08"}
@@ -19,10 +24,99 @@ def gen(prop, seed, tier):
     return _mod(prop).gen(seed, tier)
 
 
+class Hang(BaseException):
+    """The simulated world stopped making progress in real time: the process is blocked (no CPU
+    time used for a whole watchdog period) or has been computing for minutes.  Virtual time, step
+    caps and the tape bound everything the simulator schedules; a call into the code under test
+    that never comes back (a lock taken twice, an endless loop without a checkpoint) is only
+    bounded by this watchdog."""
+
+
+TICK_S = 10.0
+SPIN_CPU_S = 120.0
+
+
+class _Watchdog:
+    def __init__(self):
+        self.fired = None
+
+    def _where(self, frame):
+        inner = None
+        f = frame
+        while f is not None:
+            fn = f.f_code.co_filename.replace("\\", "/")
+            if "/cobald/" in fn:
+                return "%s:%s" % (fn.rsplit("/", 1)[-1], f.f_code.co_name)
+            if inner is None:
+                inner = "%s:%s" % (fn.rsplit("/", 1)[-1], f.f_code.co_name)
+            f = f.f_back
+        return inner or "?"
+
+    def _tick(self, signum, frame):
+        cpu = time.process_time()
+        if cpu - self.last_cpu < 0.05:
+            self.fired = ("blocked", self._where(frame), time.monotonic() - self.t0)
+        elif cpu - self.cpu0 > SPIN_CPU_S:
+            self.fired = ("spins", self._where(frame), time.monotonic() - self.t0)
+        self.last_cpu = cpu
+        if self.fired:
+            signal.setitimer(signal.ITIMER_REAL, 0)
+            raise Hang(self.fired)
+
+    def __enter__(self):
+        self.cpu0 = self.last_cpu = time.process_time()
+        self.t0 = time.monotonic()
+        self.old = signal.signal(signal.SIGALRM, self._tick)
+        signal.setitimer(signal.ITIMER_REAL, TICK_S, TICK_S)
+        return self
+
+    def __exit__(self, *exc):
+        signal.setitimer(signal.ITIMER_REAL, 0)
+        signal.signal(signal.SIGALRM, self.old)
+        return False
+
+
+def _hang_result(prop, wd):
+    how, where, wall = wd.fired
+    w = _world.CURRENT["world"]
+    events = list(w.events) if w is not None else []
+    op = getattr(w, "op", None) if w is not None else None
+    key = "%s/never-returns/%s/%s" % (prop, how, where)
+    msg = "the world stopped making progress in %s (%s): %s after %d recorded events%s" % (
+        where,
+        "blocked, no CPU time used for %.0f s of real time" % TICK_S if how == "blocked" else "more than %.0f s of CPU time without returning to the simulator" % SPIN_CPU_S,
+        "an operation of the code under test never returns",
+        len(events),
+        " (during operation %r)" % (op,) if op is not None else "",
+    )
+    tape = w.tape.recorded() if w is not None else []
+    return {
+        "violations": [{"key": key, "msg": msg}],
+        "digest": digest([digest(events), "hang", how, where]),
+        "tape": tape,
+        "stats": {"steps": len(events), "vsec": max([e["t"] for e in events] or [0.0]), "faults": dict(getattr(w, "faults", {}) or {}), "probes": {"watchdog-hang": 1}, "strategy": "trio-batch-shuffle"},
+        "sig": digest(["hang", key, digest(tape)]),
+        "nontrivial": True,
+        "events": events[-400:],
+    }
+
+
 def execute(prop, scenario, tape):
+    wd = _Watchdog()
+    _world.CURRENT["world"] = None
     try:
-        return _mod(prop).run(scenario, tape)
+        with wd:
+            res = _mod(prop).run(scenario, tape)
+        if wd.fired:
+            # the interruption was absorbed by a handler for "anything a service may raise"
+            return _hang_result(prop, wd)
+        return res
     except ScenarioInvalid as err:
+        if wd.fired:
+            return _hang_result(prop, wd)
         return {"violations": [], "invalid": str(err), "digest": "invalid", "tape": [], "stats": {}, "sig": None, "nontrivial": False}
     except BaseException as err:
+        if wd.fired:
+            # whatever the interruption turned into on its way out of trio
+            return _hang_result(prop, wd)
         return {"harness_error": "%s: %s\n%s" % (type(err).__name__, err, traceback.format_exc()[-1500:])}
